@@ -59,7 +59,7 @@ ImplStep(st, rm, d, S) ==
   LET a == S.a IN
   CASE S.op = "Init"     -> ImplFresh(Tr.def, Tr.rules)
     [] S.op = "Clear"    -> ImplFresh(a.def, a.rules)
-    [] S.op = "Reopen"   -> Res(st, 0, <<>>, "")
+    [] S.op \in {"Reopen", "Skip"} -> Res(st, 0, <<>>, "")
     [] S.op \in {"Paginate", "PagLinks"} -> Res(st, 0, <<>>, S.exc)   \* read-only (clauses: Queries)
     [] S.op = "AddPage"  -> AddPageReq(st, rm, d, a.l, a.cr)
     [] S.op = "AddPages" -> AddPagesReq(st, rm, d, a.ls, a.cr)
@@ -79,7 +79,7 @@ AbsStep(A, st, rm, d, S) ==
   LET a == S.a IN
   CASE S.op = "Init"     -> AbsFresh(Tr.def, Tr.rules)
     [] S.op = "Clear"    -> AbsFresh(a.def, a.rules)
-    [] S.op = "Reopen"   -> NoReport(A, "")
+    [] S.op \in {"Reopen", "Skip"} -> NoReport(A, "")
     [] S.op \in {"Paginate", "PagLinks"} -> NoReport(A, S.exc)
     [] S.op = "AddPage"  -> AbsAddPage(A, rm, d, a.l, a.cr)
     [] S.op = "AddPages" -> AbsAddPages(A, rm, d, a.ls, a.cr)
@@ -194,6 +194,37 @@ StepClauses(st, rm, d, S, post, o0) ==
         dead |-> FALSE]
 
 (***************************************************************************)
+(* Paired executions: the same history on another index (C15: the other    *)
+(* back-end; C11: a twin that is never closed).  Every logged field of the *)
+(* step must be identical (results, reports, write order, touched blocks,  *)
+(* header id, store lengths, public enumerations).                         *)
+(***************************************************************************)
+PairClauses(S, j) ==
+  IF Tr.pairid < 0 THEN <<>>
+  ELSE LET other == Traces[CHOOSE x \in 1..Len(Traces) : Traces[x].id = Tr.pairid] IN
+       IF j > Len(other.steps) THEN <<Tr.pairname \o ".length">>
+       ELSE LET T == other.steps[j] IN
+            FailNames(<<
+              <<Tr.pairname \o ".result", S.exc = T.exc /\ S.pages = T.pages /\ S.created = T.created>>,
+              <<Tr.pairname \o ".obs",    S.obs = T.obs>>,
+              <<Tr.pairname \o ".store",  S.d = T.d /\ S.lastId = T.lastId /\ S.nT = T.nT /\ S.nL = T.nL
+                                          /\ S.reset = T.reset>>,
+              <<Tr.pairname \o ".writes", S.w = T.w>>,
+              <<Tr.pairname \o ".answers", (Has(S.q, "ans") /\ Has(T.q, "ans")) => S.q.ans = T.q.ans>>
+            >>)
+
+(* C11: closing and reopening changes nothing; clear gives a fresh index *)
+LifeClauses(S, prev, post, st) ==
+  FailNames(<<
+    <<"C11.blocks", S.obs.lenT % 128 = 0 /\ S.obs.lenL % 16 = 0>>,
+    <<"C11.same",   S.op = "Reopen" => (S.obs = prev.obs /\ S.d = <<>> /\ S.w = <<>>
+                                       /\ post.trie = st.trie /\ post.ls = st.ls /\ post.lastId = st.lastId)>>,
+    <<"C11.answers", (S.op = "Reopen" /\ Has(S.q, "ans") /\ Has(prev.q, "ans")) => S.q.ans = prev.q.ans>>,
+    <<"C11.clear",  (S.op = "Clear" /\ Has(S.q, "fresh")) =>
+                       (S.q.fresh.rawsame /\ S.q.fresh.obssame /\ S.q.fresh.anssame)>>
+  >>)
+
+(***************************************************************************)
 (* The trace machine                                                       *)
 (***************************************************************************)
 Init ==
@@ -213,7 +244,9 @@ Next ==
   /\ LET S    == Steps[k + 1]
          post == PostStore(cur, S)
          o0   == IF k = 0 \/ S.reset THEN EmptyObs ELSE Steps[k].obs
-         f    == StepClauses(cur, ram, def, S, post, o0)
+         f0   == StepClauses(cur, ram, def, S, post, o0)
+         f    == [f0 EXCEPT !.names = @ \o PairClauses(S, k + 1)
+                                        \o (IF k = 0 THEN <<>> ELSE LifeClauses(S, Steps[k], post, cur))]
      IN /\ bad' = bad \o Tag(k + 1, f.names)
         /\ dead' = f.dead
         /\ cur' = post
